@@ -73,7 +73,13 @@ def glue(s: Subject) -> str:
         inner = "\n        ".join(s.rust_decl().split("\n"))
         if hostile == "shadow":
             pre = "\n        ".join(probes.HOSTILE_PRELUDE.split("\n"))
-            head = f"pub mod hostile {{\n        {pre}\n        {inner}\n    }}\n    use self::hostile::{E};"
+            # a user trait offering same-named methods for the enum must not capture the derive's calls
+            hj = ""
+            if "as_str" in feats:
+                an = fn_name(feats, "as_str")
+                hj = (f"\n        pub trait Label {{ fn {an}(&self) -> &'static str; }}"
+                      f"\n        impl Label for {E} {{ fn {an}(&self) -> &'static str {{ \"hijacked\" }} }}")
+            head = f"pub mod hostile {{\n        {pre}\n        {inner}{hj}\n    }}\n    use self::hostile::{E};"
         else:
             head = f"#[no_implicit_prelude]\n    pub mod hostile {{\n        use ::enum_tools::EnumTools;\n        {inner}\n    }}\n    use self::hostile::{E};"
     else:
